@@ -93,6 +93,8 @@ structure GoodGate (N : Nat) (g : Gate) : Prop where
   nums : ∀ x ∈ argNums g.arg, isNumToken x.txt = true
   present : argOk g.arg = true
   noClassical : g.cctrl = none ∨ g.cctrl = some []
+  /-- no `control_value`, or "all control qubits 1" (the meaning of a gate in these theorems is the one of its name) -/
+  ctrlOnes : cvOk g = true
 
 /-- a circuit of the class: gates only (no measurement), all good -/
 def GoodCircuit (c : Circuit) : Prop :=
@@ -341,6 +343,7 @@ theorem gateLine_good {N : Nat} {g : Gate} (hg : GoodGate N g) (m : List (Str ×
     intro x; rcases hg.noClassical with h | h <;> simp [h]
   unfold gateLine
   rw [hm]
+  simp only [hg.ctrlOnes, Bool.not_true, Bool.and_false, Bool.false_eq_true, if_false]
   rcases argOk_cases hg.present with hp | ⟨hp, hne, hk⟩
   · simp [qasmStr, ht, hp, argPresent, lineOf, hq, ctrlList]
     exact hcc _
